@@ -157,8 +157,17 @@ pub fn run_case(case: &Value, opts: &Opts, style_seed: Option<u64>) -> Value {
     let mut sched_map: HashMap<BTreeSet<ItemPath>, Vec<ItemPath>> = HashMap::new();
     if opts.use_sched {
         for pass in arr(&case["sched"]) {
-            let v: Vec<ItemPath> = arr(pass).iter().map(|p| item_path(prefix, arr(p))).collect();
-            sched_map.entry(v.iter().cloned().collect()).or_insert(v);
+            // pass = {s: unresolved set at the start of the pass, p: the picks taken (a prefix when
+            // the behaviour ended inside the pass)}; the rest follows in sorted order
+            let picks: Vec<ItemPath> = arr(&pass["p"]).iter().map(|p| item_path(prefix, arr(p))).collect();
+            let set: BTreeSet<ItemPath> = arr(&pass["s"]).iter().map(|p| item_path(prefix, arr(p))).collect();
+            let mut order = picks.clone();
+            for p in &set {
+                if !picks.contains(p) {
+                    order.push(p.clone());
+                }
+            }
+            sched_map.entry(set).or_insert(order);
         }
         let misses = std::rc::Rc::new(std::cell::Cell::new(0usize));
         let m2 = misses.clone();
@@ -167,7 +176,9 @@ pub fn run_case(case: &Value, opts: &Opts, style_seed: Option<u64>) -> Value {
             match sched_map.get(&key) {
                 Some(v) => v.clone(),
                 None => {
-                    m2.set(m2.get() + 1);
+                    if !sorted.is_empty() {
+                        m2.set(m2.get() + 1);
+                    }
                     sorted
                 }
             }
